@@ -43,7 +43,8 @@ var alsoRuns = map[string][]borrow{
 	// … the log copy is compacted with DeleteRange over an inclusive range (C09.L4) and its entries round-trip (C18.F1-F3)
 	// … and the horizon follows the installed configuration (C16.V3)
 	"C02": {{prop: "C03"}, {prop: "C14", rules: []string{"M6"}}, {prop: "C09", rules: []string{"L4"}}, {prop: "C18", rules: []string{"F1", "F2", "F3"}}, {prop: "C16", rules: []string{"V3"}}},
-	"C03": {{prop: "C14", rules: []string{"M6"}}, {prop: "C02", rules: []string{"N1"}, keyHas: "live global"}},
+	// … and hands back usable objects: every map a handler assigns into is non-nil after a load (C06.G5)
+	"C03": {{prop: "C14", rules: []string{"M6"}}, {prop: "C02", rules: []string{"N1"}, keyHas: "live global"}, {prop: "C06", rules: []string{"G5"}}},
 	// acknowledged entries survive snapshots (C02, C03), the store honours its contract (C09 + its entry codec), and
 	// "delivers exactly once" includes the resume protocol (C04)
 	// the resume protocol relies on Get/GetNext honouring their contract (C08); a message's reply number is its position in
@@ -68,7 +69,9 @@ var alsoRuns = map[string][]borrow{
 	"C10": {{prop: "C07", rules: []string{"D2", "D3", "D5"}}, {prop: "C02", rules: []string{"N1"}}, {prop: "C03", keyHas: "lastClientMessageId"},
 		{prop: "C18", rules: []string{"F1", "F2"}, keyHas: "ClientMessageId"}},
 	// instances must not share mutable package-level state: a configuration is decoded into a fresh value (C16.V3)
-	"C01": {{prop: "C16", rules: []string{"V3"}, keyHas: "fresh configuration value"}},
+	// … and an instance that raft created from a snapshot and then fed the remaining entries is one of the instances the
+	// property quantifies over: whatever influences later output must be in the snapshot and come back unchanged (C03)
+	"C01": {{prop: "C16", rules: []string{"V3"}, keyHas: "fresh configuration value"}, {prop: "C03"}},
 	// ended sessions must leave the session table, otherwise their secret keeps working
 	// … and the secret survives a snapshot unchanged (C03 obligations about the auth field)
 	"C11": {{prop: "C17", rules: []string{"Y1", "Y3", "Y4"}}, {prop: "C03", keyHasAny: []string{".auth", ".Auth"}}},
